@@ -10,7 +10,15 @@ class XmlGenerator(XMLGenerator):
 
     The stdlib generator writes them as is and a parser reads
     them back as line feeds, write a character reference instead.
+    It also writes namespace uris verbatim into the declarations,
+    escape them like any other attribute value.
     """
+
+    def startPrefixMapping(self, prefix: str | None, uri: str) -> None:
+        """Register the prefix and queue its declaration with the uri escaped."""
+        super().startPrefixMapping(prefix, uri)
+        entities = {'"': "&quot;", "\n": "&#10;", "\r": "&#13;", "\t": "&#9;"}
+        self._undeclared_ns_maps[-1] = (prefix, escape(uri, entities))
 
     def characters(self, content: str) -> None:
         """Write the character data with markup and carriage returns escaped."""
